@@ -95,7 +95,7 @@ func C01(c *Ctx) {
 func factList(c *Ctx, at ssa.Instruction) []string {
 	var out []string
 	for _, f := range FactsAtInstr(at) {
-		out = append(out, fmt.Sprintf("fact: %s == %v  (branch at %s)", f.Cond.String(), f.Pol, c.P.InstrPos(f.If)))
+		out = append(out, fmt.Sprintf("fact: %s == %v  (branch at %s)", SafeString(f.Cond), f.Pol, c.P.InstrPos(f.If)))
 	}
 	return out
 }
@@ -538,8 +538,24 @@ func (c *Ctx) c01Deletes() {
 // error through unchanged.
 func (c *Ctx) sentinelTransparent(rule string) {
 	r := c.R
-	for _, name := range []string{fnCurrentUser, fnLoadCurrentUser, fnCurrentUserLower} {
-		fn := c.P.Func(name)
+	// the exported loaders and whatever repository helpers they delegate to
+	fns := []*ssa.Function{c.P.Func(fnCurrentUser), c.P.Func(fnLoadCurrentUser)}
+	inSet := map[*ssa.Function]bool{fns[0]: true, fns[1]: true}
+	for i := 0; i < len(fns); i++ {
+		for _, call := range Calls(fns[i]) {
+			f := StaticCallee(call)
+			if f == nil || inSet[f] || !c.inRepo(f) {
+				continue
+			}
+			res := f.Signature.Results()
+			if res.Len() == 2 && IsErrorType(res.At(1).Type()) && c.isUserType(res.At(0).Type()) {
+				inSet[f] = true
+				fns = append(fns, f)
+			}
+		}
+	}
+	for _, fn := range fns {
+		name := FuncName(fn)
 		for _, b := range fn.Blocks {
 			for _, in := range b.Instrs {
 				ret, ok := in.(*ssa.Return)
